@@ -154,7 +154,7 @@ func checkC04(p *Program, r *Result) {
 	checkFinalizeStores(p, r)
 
 	g := newGoLayouts(p, pkgMcap)
-	fc := &formCtx{g: g}
+	fc := &formCtx{g: g, alias: selectionAliases(g)}
 	t, start, end := "Message.LogTime", "it.start", "it.end"
 	ref := and(atom(start, "<=", t), or(atom(t, "<", end), atom(end, "==", "MAX")))
 	var yieldForms []string
@@ -313,10 +313,40 @@ func checkReadOptions(p *Program, r *Result) {
 		if fn == nil {
 			continue
 		}
-		for _, in := range instrsOf(fn) {
-			if u, ok := in.(*ssa.UnOp); ok && u.Op == token.MUL {
-				if tn, f, _, ok := fieldRef(u.X); ok && tn == "ReadOptions" {
-					effective[f] = true
+		// the constructors and the helpers they hand the options to (not ReadOptions' own methods: Finalize only
+		// normalises)
+		region := map[*ssa.Function]bool{fn: true}
+		frontier := []*ssa.Function{fn}
+		for depth := 0; depth < 2; depth++ {
+			var next []*ssa.Function
+			for _, f := range frontier {
+				for _, ci := range callsIn(f, func(ssa.CallInstruction) bool { return true }) {
+					g := ci.Common().StaticCallee()
+					if g == nil || g.Blocks == nil || !p.isRepoFunc(g) || region[g] || strings.HasPrefix(funcName(g), "mcap.ReadOptions.") {
+						continue
+					}
+					passes := false
+					for _, a := range ci.Common().Args {
+						if pt, ok := a.Type().Underlying().(*types.Pointer); ok {
+							if nt, ok := pt.Elem().(*types.Named); ok && nt.Obj().Name() == "ReadOptions" {
+								passes = true
+							}
+						}
+					}
+					if passes {
+						region[g] = true
+						next = append(next, g)
+					}
+				}
+			}
+			frontier = next
+		}
+		for f := range region {
+			for _, in := range instrsOf(f) {
+				if u, ok := in.(*ssa.UnOp); ok && u.Op == token.MUL {
+					if tn, fl, _, ok := fieldRef(u.X); ok && tn == "ReadOptions" {
+						effective[fl] = true
+					}
 				}
 			}
 		}
@@ -411,4 +441,87 @@ func checkInfoReadOnly(p *Program, r *Result) {
 	if bad == 0 {
 		r.held("C04.f", "mcap (reader side)", "no in-place update of cached Info slices", "", "no append/copy whose destination originates from a field of Info")
 	}
+}
+
+// selectionAliases: struct fields that carry the read's selection, whoever owns them: a field initialised or assigned
+// from ReadOptions.StartNanos / EndNanos is the window's start / end; a map[string]bool field named after topics is the
+// topic set. They are given the canonical terms it.start / it.end / it.topics, so that moving the selection into a
+// filter struct (or renaming the fields) does not change the formulas.
+func selectionAliases(g *goLayouts) map[*types.Var]string {
+	out := map[*types.Var]string{}
+	optField := func(e ast.Expr) string {
+		e = stripParenConv(g, e)
+		se, ok := e.(*ast.SelectorExpr)
+		if !ok {
+			return ""
+		}
+		sel, ok := g.info.Selections[se]
+		if !ok || sel.Kind() != types.FieldVal {
+			return ""
+		}
+		t := sel.Recv()
+		if pt, ok := t.(*types.Pointer); ok {
+			t = pt.Elem()
+		}
+		if nt, ok := t.(*types.Named); !ok || nt.Obj().Name() != "ReadOptions" {
+			return ""
+		}
+		switch se.Sel.Name {
+		case "StartNanos":
+			return "it.start"
+		case "EndNanos":
+			return "it.end"
+		}
+		return ""
+	}
+	fieldVarOf := func(e ast.Expr) *types.Var {
+		switch x := e.(type) {
+		case *ast.Ident:
+			v, _ := g.info.ObjectOf(x).(*types.Var)
+			if v != nil && v.IsField() {
+				return v
+			}
+		case *ast.SelectorExpr:
+			if sel, ok := g.info.Selections[x]; ok && sel.Kind() == types.FieldVal {
+				v, _ := sel.Obj().(*types.Var)
+				return v
+			}
+		}
+		return nil
+	}
+	for _, f := range g.p.Pkgs[g.pkg].Syntax {
+		ast.Inspect(f, func(n ast.Node) bool {
+			switch x := n.(type) {
+			case *ast.KeyValueExpr:
+				if a := optField(x.Value); a != "" {
+					if fv := fieldVarOf(x.Key); fv != nil {
+						out[fv] = a
+					}
+				}
+			case *ast.AssignStmt:
+				if len(x.Lhs) == len(x.Rhs) {
+					for i := range x.Lhs {
+						if a := optField(x.Rhs[i]); a != "" {
+							if fv := fieldVarOf(x.Lhs[i]); fv != nil {
+								out[fv] = a
+							}
+						}
+					}
+				}
+			case *ast.Field:
+				// topic sets: map[string]bool fields named *topic*
+				for _, nm := range x.Names {
+					if fv, ok := g.info.Defs[nm].(*types.Var); ok && fv.IsField() && strings.Contains(strings.ToLower(nm.Name), "topic") {
+						if mt, ok := fv.Type().Underlying().(*types.Map); ok {
+							if b, ok := mt.Elem().Underlying().(*types.Basic); ok && b.Kind() == types.Bool {
+								out[fv] = "it.topics"
+							}
+						}
+					}
+				}
+			}
+			return true
+		})
+	}
+	return out
 }
